@@ -1106,7 +1106,35 @@ fn eval_c16(job: &Job) -> JobResult {
 // C19: exploration controls and limits
 // ------------------------------------------------------------------------------------------
 
+/// The `exploring` flag every decision of an iteration must carry, computed from where the
+/// control calls were executed (notes 30 stop / 31 explore / 32 skip, with the number of
+/// decisions taken before the call - hook `path_pos()`), independently of loom's own flags.
+fn expected_exploring(it: &IterData, on_start: bool) -> Vec<bool> {
+    let ctl: Vec<(u8, usize)> = it.notes.iter().filter(|n| (30..=32).contains(&n.0)).map(|n| (n.0, n.1 as usize)).collect();
+    let (mut exploring, mut skipping) = (on_start, false);
+    let mut out = Vec::with_capacity(it.path.len());
+    let mut next = 0;
+    for k in 0..it.path.len() {
+        while next < ctl.len() && ctl[next].1 <= k {
+            match ctl[next].0 {
+                30 if !skipping => exploring = false,
+                31 if !skipping => exploring = true,
+                32 => {
+                    exploring = false;
+                    skipping = true;
+                }
+                _ => {}
+            }
+            next += 1;
+        }
+        out.push(exploring);
+    }
+    out
+}
+
 struct CtlSink {
+    /// initial state of the exploring flag (`!expect_explicit_explore`)
+    on_start: bool,
     prev: Vec<((u8, u8), bool)>,
     outcomes: std::collections::BTreeSet<Outcome>,
     iters: u64,
@@ -1118,7 +1146,23 @@ impl IterSink for CtlSink {
     fn on_iter(&mut self, it: &IterData) {
         self.iters += 1;
         self.longest = self.longest.max(it.path.len());
-        let cur: Vec<((u8, u8), bool)> = it.path.iter().map(|b| (bk(b), b.exploring)).collect();
+        // decisions are classified by where the control calls ran, not by loom's own flag ...
+        let exp = expected_exploring(it, self.on_start);
+        let cur: Vec<((u8, u8), bool)> = it.path.iter().zip(exp.iter()).map(|(b, e)| (bk(b), *e)).collect();
+        // ... and loom's flag must agree with that for every decision of a complete iteration
+        if self.viol.is_none() && !it.panicked {
+            if let Some(k) = (0..it.path.len()).find(|&k| it.path[k].exploring != exp[k]) {
+                self.viol = Some(format!(
+                    "iteration {}: decision {} ({:?}) is recorded with exploring={} but the control calls executed before it leave exploring={} ({})",
+                    it.index,
+                    k,
+                    it.path[k].kind,
+                    it.path[k].exploring,
+                    exp[k],
+                    fmt_path(&it.path)
+                ));
+            }
+        }
         if self.iters > 1 && self.viol.is_none() {
             match (0..cur.len().min(self.prev.len())).find(|&i| cur[i].0 != self.prev[i].0) {
                 Some(k) => {
@@ -1137,7 +1181,7 @@ impl IterSink for CtlSink {
 }
 
 fn run_ctl(p: &Program, cfg: &subject::Cfg) -> (subject::RunSummary, CtlSink) {
-    subject::run(p, cfg, CtlSink { prev: vec![], outcomes: Default::default(), iters: 0, longest: 0, viol: None })
+    subject::run(p, cfg, CtlSink { on_start: !cfg.expect_explicit_explore, prev: vec![], outcomes: Default::default(), iters: 0, longest: 0, viol: None })
 }
 
 /// remove the results at the given (thread, position)s
@@ -1170,6 +1214,13 @@ fn eval_c19(job: &Job) -> JobResult {
     let n = full.iters as usize;
     let b = full.longest;
     let k = p.threads.len();
+    // programs with non-SeqCst accesses have outcomes the SC machine does not produce: their
+    // restricted runs are compared with the unrestricted loom run only
+    let weak = p.threads.iter().flatten().any(|o| match o.k {
+        K::Load { mo, .. } | K::Store { mo, .. } | K::Swap { mo, .. } | K::FetchAdd { mo, .. } | K::Await { mo, .. } | K::NWaitUntil { mo, .. } => mo != MO::Sc,
+        K::Cas { s, f, .. } => s != MO::Sc || f != MO::Sc,
+        _ => false,
+    });
     res.nontrivial = n >= 2;
     res.ref_outcomes = sc.done.len() as u64;
     let mut variants = 0u64;
@@ -1207,7 +1258,7 @@ fn eval_c19(job: &Job) -> JobResult {
                 }
                 let proj: std::collections::BTreeSet<Outcome> = r2.outcomes.iter().map(|o| project(o, &dropped)).collect();
                 for o in &proj {
-                    if !full.outcomes.contains(o) || !sc.done.contains(o) {
+                    if !full.outcomes.contains(o) || (!weak && !sc.done.contains(o)) {
                         push(&mut res, "restricted_not_subset", format!("{} {}", name, fmt_outcome(o)), "every execution of the restricted run is an execution of the unrestricted one", "extra outcome".into());
                     }
                 }
